@@ -13,7 +13,7 @@ theorem copyEvents_strip (sp : StripFn) : ∀ n : Node, copyEvents sp n = copyEv
   | .text _ _ => by simp [copyEvents, Node.strip]
   | .comment _ _ => by simp [copyEvents, Node.strip]
   | .pi _ _ _ => by simp [copyEvents, Node.strip]
-theorem copyKidsEvents_strip (sp : StripFn) (pn : Option QName) : ∀ ks : List Node,
+theorem copyKidsEvents_strip (sp : StripFn) (pn : Option Tag) : ∀ ks : List Node,
     copyKidsEvents sp pn ks = copyKidsEvents noStrip pn (Node.stripKids sp pn ks)
   | [] => by simp [copyKidsEvents, Node.stripKids]
   | k :: ks => by
@@ -46,15 +46,55 @@ theorem copyOf_strip (sp : StripFn) (v : Option Value) :
     | str s => rfl
     | bool b => rfl
 
+/-! ### select contexts and sort keys -/
+
+theorem ctxList_strip (sp : StripFn) (n : Nat) : ∀ (l : List Loc) (i : Nat),
+    (ctxList n l i).map (Ctx.strip sp) = ctxList n (l.map (Loc.strip sp)) i
+  | [], _ => rfl
+  | x :: xs, i => by simp [ctxList, Ctx.strip, ctxList_strip sp n xs (i + 1)]
+
+theorem contextsOf_strip (sp : StripFn) (v : Option Value) :
+    (contextsOf v).map (List.map (Ctx.strip sp)) = contextsOf (v.map (Value.strip sp)) := by
+  cases v with
+  | none => rfl
+  | some v => cases v <;> simp [contextsOf, ctxList_strip]
+
+theorem ctxList_nodes (n : Nat) : ∀ (l : List Loc) (i : Nat), ∀ cx ∈ ctxList n l i, cx.node ∈ l
+  | [], _, cx, h => by simp [ctxList] at h
+  | x :: xs, i, cx, h => by
+    simp only [ctxList, List.mem_cons] at h
+    rcases h with rfl | h
+    · simp
+    · exact List.mem_cons_of_mem _ (ctxList_nodes n xs (i + 1) cx h)
+
+theorem sortKeys_strip (sp : StripFn) (sel key : Expr) (c : Ctx) (hc : c.node.stripped sp = false) :
+    sortKeys sp sel key c = sortKeys noStrip sel key (c.strip sp) := by
+  unfold sortKeys
+  have hs := eval_sim sp sel c hc
+  rw [← hs.1, ← contextsOf_strip]
+  cases hv : sel.eval sp c with
+  | none => rfl
+  | some v =>
+    cases v with
+    | ns l =>
+      simp only [contextsOf, Option.map_some, List.map_map, Option.some.injEq]
+      apply List.map_congr_left
+      intro cx hcx
+      have hx : cx.node.stripped sp = false := hs.2 l hv cx.node (ctxList_nodes l.length l 1 cx hcx)
+      have hk := (eval_sim sp key cx hx).1
+      simp only [Function.comp]
+      rw [← hk]
+      cases key.eval sp cx with
+      | none => rfl
+      | some w => simp [Value.toStr_strip]
+    | num n => rfl
+    | str s => rfl
+    | bool b => rfl
+
 /-! ### keys -/
 
 theorem isDocument_strip (sp : StripFn) (l : Loc) : (l.strip sp).isDocument = l.isDocument := by
-  obtain ⟨focus, path⟩ := l
-  cases focus with
-  | elem i n kids => cases n <;> rfl
-  | text i d => rfl
-  | comment i d => rfl
-  | pi i t d => rfl
+  simp [Loc.isDocument, Loc.strip]
 
 theorem patMatches_strip (sp : StripFn) (t : Test) (l : Loc) :
     patMatches sp t l = (keep sp l && patMatches noStrip t (l.strip sp)) := by
@@ -138,5 +178,134 @@ theorem keyLookup_strip (sp : StripFn) (k : KeyDecl) (root : Loc) (s : String) (
     | cons e es ih =>
       simp only [List.map_cons, List.filter_cons, stripEntry]
       cases e.1 == s <;> simp [ih]
+
+/-! ### xsl:number level any, the specification -/
+
+theorem precSibsDesc_strip (sp : StripFn) (a : Loc) (has : a.stripped sp = false) :
+    (((a.precedingSiblings).flatMap fun s => s.descOrSelf.reverse).filter (keep sp)).map (Loc.strip sp)
+      = ((a.strip sp).precedingSiblings).flatMap fun s => s.descOrSelf.reverse := by
+  rw [flatMap_strip sp (fun s => s.descOrSelf.reverse) (fun s => s.descOrSelf.reverse) a.precedingSiblings
+    (fun x _ hx => descOrSelfRev_strip sp x hx) (fun x _ hx => descOrSelfRev_stripped sp x hx)]
+  rw [precedingSiblings_strip sp a has]
+
+theorem beforeAux_strip (sp : StripFn) : ∀ (path : List Frame) (focus : Node),
+    Loc.stripped sp ⟨focus, path⟩ = false →
+    ((beforeAux focus path).filter (keep sp)).map (Loc.strip sp)
+      = beforeAux (focus.strip sp) (path.map (Frame.strip sp))
+  | [], _, _ => by simp [beforeAux]
+  | f :: p, focus, h => by
+    have hf : focus.stripped sp f.pname = false := h
+    have ih := beforeAux_strip sp p (f.parentNode focus) (parentLoc_not_stripped sp f focus p)
+    have hs := precSibsDesc_strip sp ⟨focus, f :: p⟩ h
+    have hdoc : (Loc.mk ((f.strip sp).parentNode (focus.strip sp)) (p.map (Frame.strip sp))).isDocument
+        = (Loc.mk (f.parentNode focus) p).isDocument := by
+      rw [← parentNode_strip sp f focus hf]
+      exact isDocument_strip sp ⟨f.parentNode focus, p⟩
+    simp only [beforeAux, List.filter_append, List.map_append, List.map_cons]
+    rw [hs, hdoc]
+    congr 1
+    cases (Loc.mk (f.parentNode focus) p).isDocument
+    · simp only [Bool.false_eq_true, if_false, List.filter_cons, keep, parentLoc_not_stripped, Bool.not_false,
+        if_true, List.map_cons]
+      rw [ih]
+      simp [Loc.strip, parentNode_strip sp f focus hf]
+    · simp
+
+theorem before_strip (sp : StripFn) (l : Loc) (h : l.stripped sp = false) :
+    ((l.before).filter (keep sp)).map (Loc.strip sp) = (l.strip sp).before :=
+  beforeAux_strip sp l.path l.focus h
+
+theorem filter_patMatches_strip (sp : StripFn) (c : Test) (L : List Loc) :
+    (L.filter (patMatches sp c)).length
+      = (((L.filter (keep sp)).map (Loc.strip sp)).filter (patMatches noStrip c)).length := by
+  induction L with
+  | nil => rfl
+  | cons x xs ih =>
+    simp only [List.filter_cons]
+    rw [patMatches_strip sp c x]
+    by_cases hk : keep sp x = true
+    · by_cases hp : patMatches noStrip c (x.strip sp) = true
+      · simp [hk, hp, ih]
+      · simp [hk, hp, ih]
+    · simp [hk, ih]
+
+theorem numberAnySpec_strip (sp : StripFn) (c : Test) (l : Loc) (h : l.stripped sp = false) :
+    numberAnySpec sp c l = numberAnySpec noStrip c (l.strip sp) := by
+  unfold numberAnySpec
+  rw [filter_patMatches_strip sp c (l :: l.before)]
+  have hk : keep sp l = true := by simp [keep, h]
+  simp only [List.filter_cons, hk, if_true, List.map_cons]
+  rw [before_strip sp l h]
+
+/-! ### xsl:number single / multiple -/
+
+theorem fromMatches_strip (sp : StripFn) (f : Option Test) (l : Loc) (h : keep sp l = true) :
+    fromMatches sp f l = fromMatches noStrip f (l.strip sp) := by
+  cases f with
+  | none => rfl
+  | some t => simp [fromMatches, patMatches_strip sp t l, h]
+
+theorem matchingAncestors_strip (sp : StripFn) (c : Test) (f : Option Test) (single : Bool) :
+    ∀ L : List Loc, (∀ x ∈ L, keep sp x = true) →
+      (matchingAncestors sp c f single L).map (Loc.strip sp)
+        = matchingAncestors noStrip c f single (L.map (Loc.strip sp))
+  | [], _ => rfl
+  | n :: rest, h => by
+    have hn := h n (by simp)
+    have ih := matchingAncestors_strip sp c f single rest (fun x hx => h x (List.mem_cons_of_mem _ hx))
+    simp only [matchingAncestors, List.map_cons]
+    rw [← fromMatches_strip sp f n hn]
+    have hp : patMatches sp c n = patMatches noStrip c (n.strip sp) := by
+      rw [patMatches_strip sp c n, hn, Bool.true_and]
+    rw [← hp]
+    cases fromMatches sp f n <;> cases single <;> cases patMatches sp c n <;> simp [ih]
+
+theorem siblingChain_strip (sp : StripFn) (c : Test) :
+    ∀ L : List Loc, siblingChain sp c L = siblingChain noStrip c ((L.filter (keep sp)).map (Loc.strip sp))
+  | [] => rfl
+  | x :: xs => by
+    have ih := siblingChain_strip sp c xs
+    simp only [siblingChain, List.filter_cons]
+    rw [patMatches_strip sp c x]
+    by_cases hk : keep sp x = true
+    · simp only [hk, Bool.true_and, if_true, List.map_cons, siblingChain, ih]
+    · have hk' : keep sp x = false := (Bool.not_eq_true _).mp hk
+      simp only [hk', Bool.false_and, Bool.false_eq_true, if_false, ih]
+
+theorem numberOfTarget_strip (sp : StripFn) (c : Test) (t : Loc) (h : t.stripped sp = false) :
+    numberOfTarget sp c t = numberOfTarget noStrip c (t.strip sp) := by
+  unfold numberOfTarget
+  rw [siblingChain_strip sp c t.precedingSiblings, precedingSiblings_strip sp t h]
+
+theorem matchingAncestors_sub (sp : StripFn) (c : Test) (f : Option Test) (single : Bool) :
+    ∀ L : List Loc, ∀ x ∈ matchingAncestors sp c f single L, x ∈ L
+  | [], x, hx => by simp [matchingAncestors] at hx
+  | n :: rest, x, hx => by
+    simp only [matchingAncestors] at hx
+    split at hx
+    · simp at hx
+    · split at hx
+      · split at hx
+        · simp at hx; simp [hx]
+        · rcases List.mem_cons.mp hx with hx | hx
+          · simp [hx]
+          · exact List.mem_cons_of_mem _ (matchingAncestors_sub sp c f single rest x hx)
+      · exact List.mem_cons_of_mem _ (matchingAncestors_sub sp c f single rest x hx)
+
+theorem numberList_strip (sp : StripFn) (c : Test) (f : Option Test) (single : Bool) (l : Loc)
+    (h : l.stripped sp = false) :
+    numberList sp c f single l = numberList noStrip c f single (l.strip sp) := by
+  unfold numberList
+  have hk := selfAndAncestors_keep sp l h
+  have hmap : (l :: l.ancestors).map (Loc.strip sp) = l.strip sp :: (l.strip sp).ancestors := by
+    have := selfAndAncestors_strip sp l h
+    rwa [List.filter_eq_self.mpr (fun x hx => hk x hx)] at this
+  rw [← hmap, ← matchingAncestors_strip sp c f single _ hk, ← List.map_reverse, List.map_map]
+  apply List.map_congr_left
+  intro t ht
+  have htm : t ∈ l :: l.ancestors :=
+    matchingAncestors_sub sp c f single _ t (List.mem_reverse.mp ht)
+  have hts : t.stripped sp = false := by simpa [keep] using hk t htm
+  simp [numberOfTarget_strip sp c t hts]
 
 end XalanModel.C13
